@@ -469,7 +469,9 @@ static void wlSpsc() {
 template <size_t Cap>
 static void dequeRun() {
   char cls[128];
-  dispenso::ChaseLevDeque<int, Cap> dq;
+  // on the heap: stores to the running thread's own stack are never put in the simulated store buffer
+  std::unique_ptr<dispenso::ChaseLevDeque<int, Cap>> dqOwner(new dispenso::ChaseLevDeque<int, Cap>());
+  dispenso::ChaseLevDeque<int, Cap>& dq = *dqOwner;
   int nThieves = range(1, 3);
   int nOps = range(1, 40);
   sim_note("cap", (int64_t)Cap);
@@ -886,5 +888,5 @@ static void wlArena() {
 HX_WORKLOAD("C33", "vector", wlVector, SF_ALL, 3000000, 3000000, 1);
 HX_WORKLOAD("C34", "mpmc", wlMpmc, SF_ALL, 3000000, 3000000, 1);
 HX_WORKLOAD("C35", "spsc", wlSpsc, SF_ALL, 3000000, 3000000, 1);
-HX_WORKLOAD("C36", "deque", wlDeque, SF_ALL, 3000000, 3000000, 1);
+HX_WORKLOAD("C36", "deque", wlDeque, SF_ALL | SF_TSO, 3000000, 3000000, 1);
 HX_WORKLOAD("C37", "arena", wlArena, SF_ALL, 3000000, 3000000, 1);
